@@ -184,6 +184,9 @@ def ideal_configs(quick: bool) -> list[Cfg]:
         NP, NB = ((3, 1), (2, 2), (4, 1))[i % 3] if quick else ((3, 2), (4, 1), (2, 3))[i % 3]
         c.append(Cfg(f"CorrFunc {'auto' if auto else 'cross'} {'|'.join(ms)}, {NP} patches x {NB} bins, {n} pseudo-random, histories of {ops}",
                      "corr", NP, NB, cvals=(0, 1, 2), wvals=(1, 2) if i % 2 else (0, 1, 2), funcs=((f, auto, ms),), nsample=n, maxops=ops))
+    for ms in (("dd", "rd", "rr"), ("dd", "rr")):  # no formula prescribed: rejection or a self-consistent result
+        c.append(Cfg(f"CorrFunc cross {'|'.join(ms)} (no estimator prescribed), 3 patches x 1 bin, 10 pseudo-random", "corr", 3, 1,
+                     cvals=(0, 1, 2), wvals=(1, 2), funcs=(("cross", False, ms),), nsample=10, maxops=2))
     # --- redshift estimates ----------------------------------------------
     nz_sets = [
         ((("cross", False, ("dd", "dr", "rd", "rr")), ("ref", True, ("dd", "dr", "rr"))), 3, 2, (1, 2)),
@@ -394,24 +397,24 @@ def check_covariance(res, entry: str, cls: str, exp_cov=None) -> list:
         cov = np.asarray(res.covariance)
         err = np.asarray(res.error)
     nb = samples.shape[1]
-    detail = dict(samples=samples.tolist(), covariance=cov.tolist(), error=err.tolist())
+    detail = dict(product=entry, input_class=cls, samples=samples.tolist(), covariance=cov.tolist(), error=err.tolist())
     if cov.shape != (nb, nb) or err.shape != (nb,):
-        return [(f"C03|SampledData.covariance|{entry}|shape", detail)]
+        return [("C03|SampledData.covariance|jackknife_samples|shape", detail)]
     want = jackknife_cov(samples)
     scale = max(1.0, float(np.max(np.abs(want))))
     if not np.allclose(cov, want, rtol=1e-9, atol=1e-12 * scale):
-        out.append((f"C03|SampledData.covariance|{entry}|not_delete_one_jackknife_covariance", dict(detail, expected=want.tolist())))
+        out.append(("C03|SampledData.covariance|jackknife_samples|not_delete_one_jackknife_covariance", dict(detail, expected=want.tolist())))
     if exp_cov is not None and not np.allclose(cov, exp_cov, rtol=1e-9, atol=1e-12 * scale):
-        out.append((f"C03|SampledData.covariance|{entry}|differs_from_model", dict(detail, expected=np.asarray(exp_cov).tolist())))
+        out.append(("C03|SampledData.covariance|jackknife_samples|differs_from_model", dict(detail, expected=np.asarray(exp_cov).tolist())))
     if not np.allclose(cov, cov.T, rtol=1e-12, atol=1e-15 * scale):
-        out.append((f"C03|SampledData.covariance|{entry}|asymmetric", detail))
+        out.append(("C03|SampledData.covariance|jackknife_samples|asymmetric", detail))
     elif np.all(np.isfinite(cov)):
         ev = np.linalg.eigvalsh((cov + cov.T) / 2)
         if ev.min() < -1e-9 * scale:
-            out.append((f"C03|SampledData.covariance|{entry}|not_positive_semidefinite", dict(detail, eigenvalues=ev.tolist())))
+            out.append(("C03|SampledData.covariance|jackknife_samples|not_positive_semidefinite", dict(detail, eigenvalues=ev.tolist())))
     werr = np.sqrt(np.clip(np.diag(want), 0, None))
     if not np.allclose(err, werr, rtol=1e-9, atol=1e-9 * math.sqrt(scale)):
-        out.append((f"C03|SampledData.error|{entry}|not_sqrt_of_covariance_diagonal", dict(detail, expected=werr.tolist())))
+        out.append(("C03|SampledData.error|jackknife_samples|not_sqrt_of_covariance_diagonal", dict(detail, expected=werr.tolist())))
     return out
 
 
@@ -485,9 +488,46 @@ def history_class(hist, n: int) -> str:
     return "any_call" if n == 0 else "after_" + "_".join(dict.fromkeys(h[0] for h in hist[:n]))
 
 
-class ContainerReplayer:
-    def __init__(self, ctx, yaw, tmpdir) -> None:
+class Reporter:
+    """Collects violations; sample mismatches of one (entry point, input class, history class) are
+    classified as a GROUP (all reversed -> reversed patch order, all permutations -> permuted rows,
+    otherwise wrong values), so that one defect maps to one key whatever coincidences tiny integer
+    arrays produce."""
+
+    KINDS = ("samples_reversed_patch_order", "samples_permuted", "samples_wrong")
+
+    def __init__(self, ctx) -> None:
         self.ctx = ctx
+        self.groups: dict = {}
+
+    def violation(self, key: str, detail: dict) -> None:
+        head, _, last = key.rpartition("|")
+        for kind in self.KINDS:
+            if last.startswith(kind):
+                suffix = last[len(kind):]
+                self.groups.setdefault((head, suffix), {}).setdefault(kind, []).append(detail)
+                return
+        self.ctx.violation(key, detail)
+
+    def flush(self) -> None:
+        for (head, suffix), kinds in self.groups.items():
+            present = set(kinds)
+            if present == {"samples_reversed_patch_order"}:
+                outcome = "samples_reversed_patch_order"
+            elif "samples_wrong" not in present:
+                outcome = "samples_permuted"
+            else:
+                outcome = "samples_wrong"
+            details = kinds.get(outcome) or next(iter(kinds.values()))
+            for _ in range(sum(len(v) for v in kinds.values())):
+                self.ctx.violation(f"{head}|{outcome}{suffix}", details[0])
+        self.groups = {}
+
+
+class ContainerReplayer:
+    def __init__(self, ctx, yaw, tmpdir, rep=None) -> None:
+        self.ctx = ctx
+        self.rep = rep or ctx
         self.yaw = yaw
         self.tmpdir = tmpdir
 
@@ -521,10 +561,17 @@ class ContainerReplayer:
                 try:
                     res = ws.execute(op)
                 except Exception as exc:  # a public call on valid input must not raise
+                    if kind in ("corr", "nz") and any("rr" in ms and "dr" not in ms for _, _, ms in cfg.funcs):
+                        # rr without dr: the property prescribes no formula - a rejection conforms
+                        if report:
+                            self.ctx.evaluated(1)
+                            self.ctx.extra["rejections_accepted_where_no_formula_is_prescribed"] = (
+                                self.ctx.extra.get("rejections_accepted_where_no_formula_is_prescribed", 0) + 1)
+                        break
                     f = [(f"C03|{ENTRY[kind]}|{cls}|{hcls}|raises_{type(exc).__name__}", dict(detail, error=repr(exc)))]
                     all_findings += f
                     if report:
-                        self.ctx.violation(*f[0])
+                        self.rep.violation(*f[0])
                     break
                 if report:
                     nontrivial = any(x != 0 for arr in cnt.values() for bins in arr for row in bins for x in row) or (
@@ -561,7 +608,7 @@ class ContainerReplayer:
                 self.last_drifts += drifts
                 if report:
                     for key, det in findings:
-                        self.ctx.violation(key, det)
+                        self.rep.violation(key, det)
                     for key, det in drifts:
                         self.ctx.drift(key, det)
         return all_findings
@@ -577,8 +624,9 @@ def _freeze(d) -> tuple:
 
 
 class HistWorld:
-    def __init__(self, ctx, yaw, root, seed: int) -> None:
+    def __init__(self, ctx, yaw, root, seed: int, rep=None) -> None:
         self.ctx = ctx
+        self.rep = rep or ctx
         self.yaw = yaw
         self.root = root
         self.rng = random.Random(seed)
@@ -667,7 +715,7 @@ class HistWorld:
             self.last_drifts += drifts
             if report:
                 for key, det in findings:
-                    self.ctx.violation(key, det)
+                    self.rep.violation(key, det)
                 for key, det in drifts:
                     self.ctx.drift(key, det)
         return all_findings
@@ -683,8 +731,9 @@ class EndToEnd:
     every product is compared with the same product measured on catalogs re-created
     without the records of patch k; the measured integer arrays go to JackknifeTrace."""
 
-    def __init__(self, ctx, yaw, root, seed: int) -> None:
+    def __init__(self, ctx, yaw, root, seed: int, rep=None) -> None:
         self.ctx = ctx
+        self.rep = rep or ctx
         self.yaw = yaw
         self.root = root
         self.seed = seed
@@ -708,7 +757,20 @@ class EndToEnd:
         if variant["auto"]:
             (out["ref"],) = self.yaw.autocorrelate(config, cats["ref"], cats["rref"], count_rr=variant["count_rr"], max_workers=1)
         out["hist"] = self.yaw.HistData.from_catalog(cats["ref"], config, max_workers=1)
+        # the measured arrays as delivered, before anything is sampled
+        out["_arrays"] = {
+            (f, m): (nc.counts.counts.copy(), nc.sum_weights.sum_weights1.copy(), nc.sum_weights.sum_weights2.copy(), bool(nc.auto), nc.binning)
+            for f in ("cross", "ref") if f in out for m, nc in out[f].to_dict().items()
+        }
         return out
+
+    def totals(self, arrays) -> tuple:
+        """Totals of measured arrays through FRESH containers (independent of the state of the measured objects)."""
+        from yaw.correlation.paircounts import PatchedCounts, PatchedSumWeights
+
+        c, w1, w2, auto, binning = arrays
+        return (PatchedCounts(binning, c, auto=auto).sample_patch_sum().data,
+                PatchedSumWeights(binning, w1, w2, auto=auto).sample_patch_sum().data)
 
     @staticmethod
     def drop_patch(frames: dict, k: int) -> dict:
@@ -725,9 +787,15 @@ class EndToEnd:
         frames = self.frames(NP, nobj, seed)
         vname = "+".join(k for k, v in variant.items() if v) or "none"
         detail = dict(num_patches=NP, objects=nobj, edges=list(edges), variant=vname, seed=seed)
+        from yaw.catalog.catalog import InconsistentPatchesError
+
         with np.errstate(all="ignore"), warnings.catch_warnings():
             warnings.simplefilter("ignore")
-            full = self.measure(frames, config, variant)
+            try:
+                full = self.measure(frames, config, variant)
+            except InconsistentPatchesError:
+                # the random scenario is not a valid input (patch centres of the sparse catalogs too far apart)
+                return None
             products = {}
             products["cross"] = full["cross"].sample()
             if "ref" in full:
@@ -755,12 +823,12 @@ class EndToEnd:
             det = dict(detail, product=name, samples=got.tolist(), recomputed_without_patch_k=rec.tolist())
             base = f"C03|{entry_of[name]}|{cls_of[name]}|end_to_end"
             if got.shape != (NP, NB):
-                ctx.violation(f"{base}|shape", det)
+                self.rep.violation(f"{base}|shape", det)
                 continue
             none = [[None] * NB for _ in range(NP)]
             outcome = classify_samples(got, none, rec)
             if outcome is not None:
-                ctx.violation(f"{base}|{outcome}_vs_patch_physically_removed", det)
+                self.rep.violation(f"{base}|{outcome}_vs_patch_physically_removed", det)
             for key, d2 in check_covariance(prod, entry_of[name], cls_of[name]):
                 ctx.violation(key, dict(d2, **detail))
         # joint covariance of several products (cov_from_samples with a sequence of sample sets)
@@ -785,9 +853,10 @@ class EndToEnd:
             rec["cnt"][f], rec["wt"][f], rec["sps"][f], rec["red"][f], rec["full"][f] = {}, {}, {}, {}, {}
             for m in members:
                 nc = getattr(full[f], m)
-                c2, okc = _ints(2 * nc.counts.counts)
-                w1, ok1 = _ints(nc.sum_weights.sum_weights1)
-                w2, ok2 = _ints(nc.sum_weights.sum_weights2)
+                snap = full["_arrays"][(f, m)]
+                c2, okc = _ints(2 * snap[0])
+                w1, ok1 = _ints(snap[1])
+                w2, ok2 = _ints(snap[2])
                 rec["cnt"][f][m] = c2
                 rec["wt"][f][role1(auto, m)] = w1
                 rec["wt"][f][role2(auto, m)] = w2
@@ -797,12 +866,16 @@ class EndToEnd:
                 d2, o3 = _ints(2 * sw.data)
                 s2, o4 = _ints(2 * sw.samples)
                 rec["sps"][f][m] = dict(counts=dict(data=d1, samples=s1), sumw=dict(data=d2, samples=s2))
-                rec["full"][f][m] = dict(cnt=d1, norm=d2)
+                tc, tn = self.totals(snap)
+                fc, o7 = _ints(2 * tc)
+                fn, o8 = _ints(2 * tn)
+                ok = ok and o7 and o8
+                rec["full"][f][m] = dict(cnt=fc, norm=fn)
                 rc, rn = [], []
                 for k in range(NP):
-                    rnc = getattr(red_objs[k][f], m)
-                    a, o5 = _ints(2 * rnc.counts.sample_patch_sum().data)
-                    b, o6 = _ints(2 * rnc.sum_weights.sample_patch_sum().data)
+                    rtc, rtn = self.totals(red_objs[k]["_arrays"][(f, m)])
+                    a, o5 = _ints(2 * rtc)
+                    b, o6 = _ints(2 * rtn)
                     ok = ok and o5 and o6
                     rc.append(a)
                     rn.append(b)
@@ -823,7 +896,7 @@ def validate_traces(ctx, traces: list, label: str) -> list:
     """All traces share (funcs, NP, NB).  Returns the list of verdict tuples
     (impl, prop, spec) per trace, in order."""
     t0 = traces[0]
-    cfg = Cfg("trace", "trace", t0["NP"], t0["NB"], funcs=t0["funcs"], maxops=32)
+    cfg = Cfg("trace", "trace", t0["NP"], t0["NB"], funcs=t0["funcs"], maxops=32, dz=(1,) * t0["NB"])
     mod = wrapper_module(cfg, "JackknifeTrace_MC", "JackknifeTrace")
     text = tlc.make_cfg(spec="TSpec", constants=constants(cfg, "{}", 0), invariants=["Verdict"], deadlock=False)
     with scratch("c03t_") as tdir:
@@ -995,6 +1068,16 @@ def run(ctx) -> None:
     ctx.assume("float comparisons (relative 1e-9) are done in the driver; the model supplies exact rationals; PSD-ness of the "
                "covariance is a numeric side-condition (eigvalsh) on the real matrix, Cauchy-Schwarz is model-checked")
 
+    import time
+
+    t_phase = time.time()
+    timing = ctx.extra.setdefault("wall_s_per_phase", {})
+
+    def phase(name):
+        nonlocal t_phase
+        timing[name] = round(time.time() - t_phase, 1)
+        t_phase = time.time()
+
     # ---- A. model checking: ideal design --------------------------------
     cfgs = ideal_configs(quick)
     results = run_many(cfgs, lambda c: run_tlc(c, seed=ctx.seed))
@@ -1019,9 +1102,11 @@ def run(ctx) -> None:
                     f"deviation {name} no longer yields a counterexample (stale model)")
         cex[name] = res.trace[-1]["state"]
 
+    phase("tlc_ideal_and_deviations")
     with scratch("c03_") as root:
-        creplay = ContainerReplayer(ctx, yaw, root)
-        hworld = HistWorld(ctx, yaw, root / "hist", ctx.seed)
+        rep = Reporter(ctx)
+        creplay = ContainerReplayer(ctx, yaw, root, rep)
+        hworld = HistWorld(ctx, yaw, root / "hist", ctx.seed, rep)
 
         # ---- C. spec -> code: replay every terminal state ----------------
         first_beh = {}
@@ -1049,6 +1134,7 @@ def run(ctx) -> None:
         ctx.extra["behaviours_with_undefined_expected_values"] = undefined_cases
         ctx.require(undefined_cases > 0, "no behaviour with an undefined (zero-denominator) statistic explored")
 
+        phase("replay_of_tlc_behaviours")
         # ---- D. replay of the deviation counterexamples ------------------
         dev_report = {}
         for name in names:
@@ -1114,8 +1200,9 @@ def run(ctx) -> None:
                 break
         ctx.extra["binding_demonstrations"] = demos
 
+        phase("deviation_replays_and_binding_demonstrations")
         # ---- F. end-to-end + trace validation ------------------------------
-        e2e = EndToEnd(ctx, yaw, root / "e2e", ctx.seed)
+        e2e = EndToEnd(ctx, yaw, root / "e2e", ctx.seed, rep)
         variants = [
             dict(ref_rand=True, unk_rand=True, auto=True, count_rr=True),
             dict(ref_rand=False, unk_rand=True, auto=True, count_rr=False),
@@ -1124,14 +1211,15 @@ def run(ctx) -> None:
         plan = [(4, 60, (0.1, 0.25, 0.55, 1.0), variants[0]), (3, 45, (0.1, 0.4, 1.0), variants[1]), (5, 70, (0.1, 0.5, 0.7, 1.0), variants[2])]
         if not quick:
             for r in range(9):
-                plan.append((rng.choice([2, 3, 4, 5, 6]), rng.choice([40, 80, 150]), rng.choice([(0.1, 0.25, 0.55, 1.0), (0.1, 0.3, 1.0), (0.1, 0.2, 0.4, 0.7, 1.0)]),
+                NP = rng.choice([2, 3, 4, 5, 6])
+                plan.append((NP, NP * rng.choice([15, 25, 40]), rng.choice([(0.1, 0.25, 0.55, 1.0), (0.1, 0.3, 1.0), (0.1, 0.2, 0.4, 0.7, 1.0)]),
                              variants[r % 3]))
         traces = []
         for i, (NP, nobj, edges, variant) in enumerate(plan):
             t = e2e.scenario(NP, nobj, edges, variant, ctx.seed + 1000 + 10 * i)
             if t is not None:
                 traces.append(t)
-        ctx.require(len(traces) >= len(plan) - 1, "end-to-end measurements did not yield integer arrays for the trace validation")
+        ctx.require(len(traces) >= max(3, len(plan) - 3), "too few valid end-to-end scenarios with integer arrays for the trace validation")
         groups: dict = {}
         for t in traces:
             groups.setdefault((t["funcs"], t["NP"], t["NB"]), []).append(t)
@@ -1158,4 +1246,6 @@ def run(ctx) -> None:
                 if prop is not True:
                     ctx.violation("C03|pair_counts|measured_pair_counts|end_to_end|leave_one_out_sum_differs_from_patch_physically_removed", t["detail"])
         ctx.extra["end_to_end"] = dict(scenarios=len(plan), traces_validated_by_tlc=nval, corrupted_traces_rejected=len(groups))
+        rep.flush()
+        phase("end_to_end_and_trace_validation")
         ctx.exhaustive = False
